@@ -270,6 +270,12 @@ func runC16(sc C16Sc, c *kit.Case) *kit.Violation {
 		case <-paused:
 			pausedReached = true
 		case <-consumerDone: // the traversal ended before the consumer got to its pause
+		case <-time.After(20 * time.Second):
+			if ok, who := sv.C.AllBlocked(); !ok {
+				c.Inconclusive = "announce still running after 20 s with runnable goroutines: " + who
+				return nil
+			}
+			return kit.Violatef("C16:announce-never-finished", "the traversal neither delivered %d responses nor closed the peers channel although every module goroutine is blocked", sc.PauseAfter)
 		}
 	}
 	if pausedReached {
@@ -307,7 +313,11 @@ func runC16(sc C16Sc, c *kit.Case) *kit.Violation {
 		return kit.Violatef("C16:finished-not-signalled", "the peers channel is closed but Finished() has not fired")
 	}
 	outAtClose := sv.C.NumOut()
-	if n := sv.S.Stats().OutstandingTransactions; n != 0 {
+	st, sv1, ok := sv.stats(c, "C16", "after the announce finished")
+	if !ok {
+		return sv1
+	}
+	if n := st.OutstandingTransactions; n != 0 {
 		return kit.Violatef("C16:closed-before-announces-done", "the peers channel was closed while %d transactions were still outstanding", n)
 	}
 	if !sv.barrier(c) {
